@@ -39,7 +39,7 @@ package fluentdforward
 //@                                                                     && 0 <= vcnt(packer, record, i) && vcnt(packer, record, i) <= i
 //@   define   forall j int :: 0 <= j && j <= len(packer.envFieldLocators) ==> 0 <= esum(packer, record, j) && esum(packer, record, j) <= esum(packer, record, len(packer.envFieldLocators))
 //@   requires[fits] 14 + psum(packer, record, len(packer.fieldMasks)) + 15 + esum(packer, record, len(packer.envFieldLocators)) < len(buffer)
-//@   modifies buffer[:]
+//@   modifies buffer[:], record.Unescaped
 //@   ensures  0 < result && result <= len(buffer)
 //@   ensures[root] buffer[0] == 146 && buffer[1] == 215 && buffer[2] == 0
 //@        && fastmsgpack.be32(buffer, 3) == unixsec(record.Timestamp) % 4294967296 && fastmsgpack.be32(buffer, 7) == nanosec(record.Timestamp)
@@ -61,5 +61,5 @@ package fluentdforward
 
 //@ func (packer *eventSerializer) SerializeRecord(record *base.LogRecord) base.LogStream
 //@   requires validpacker(packer) && record != nil && len(packer.fieldMasks) <= len(record.Fields) && len(packer.buffer) == 2 * defs.InputLogMaxRecordBytes
-//@   modifies packer.buffer[:]
+//@   modifies packer.buffer[:], record.Unescaped
 //@   ensures  len(result) <= len(packer.buffer)
